@@ -302,6 +302,8 @@ def oracle(case, io, mo):
         return oracle_split_child(t, int(op[1]), io)
     if op[0] == "sequentialize":
         return oracle_sequentialize(t, io)
+    if op[0] == "extend_until" and not is_err(io) and any(isinstance(x, list) and x and x[0] == "second-call-differs" for x in io[2:]):
+        return "extending a second time to the same duration changed the event again (doing it twice has to equal doing it once)"
     if op[0] == "extend_until" and op[1] in (0, "0"):
         return None     # prolong_chronon=False: decided by the correspondence (a leaf voice that would need prolonging is an error)
     if op[0] == "extend_until" and op[2] != "none":
